@@ -13,7 +13,7 @@ RULE = ("50% format_error(status, message) with messages over a markup/whitespac
         "dictionary (exercising html.escape and textwrap.dedent margins); 20% make_error_response; 30% end-to-end: a real "
         "HttpLayer (regular mode, HTTP/1) is sent malformed or unroutable requests carrying markup in the request line, header "
         "names/values, authority, or gets an upstream connect error / oversized body, and the bytes it answers are parsed. "
-        "Non-trivial = the message contains a character that html.escape rewrites or a newline/indent that changes the dedent "
+        "4% of messages are long (1000-6000 characters, sizes around 2048/4096) and end-to-end request lines / upstream error texts are padded likewise. Non-trivial = the message contains a character that html.escape rewrites or a newline/indent that changes the dedent "
         "margin, or (end-to-end) an error page was produced; distinct by canonical JSON.")
 TRUSTED = ["Coq 8.16.1 kernel; vm_compute for case evaluation",
            "hand model of html.escape, textwrap.dedent, str.strip at the page ends, utf-8 'replace' encoding, Response.make/assemble_response; tied by correspondence",
@@ -44,6 +44,12 @@ def gen(rng, n, tier):
     for _ in range(n):
         r = rng.random()
         msg = "".join(rng.choice(TOK) for _ in range(rng.randint(0, 7)))
+        if rng.chance(0.04):
+            # long messages (overlong request lines, header values, upstream error texts): boundary sizes
+            pad = rng.choice([1000, 2040, 2048, 2049, 4096, 6000])
+            filler = rng.choice(["a", "x<", "&", "é", "<b>"])
+            msg = rng.choice([msg + filler * (pad // len(filler)), filler * (pad // len(filler)) + msg,
+                              "<script>" + "A" * pad + "</script>"])
         if r < 0.5:
             out.append({"k": "page", "code": rng.choice(STATUS), "msg": [ord(c) for c in msg]})
         elif r < 0.7:
@@ -53,9 +59,14 @@ def gen(rng, n, tier):
             if rng.chance(0.5):
                 i = rng.below(len(base))
                 base[i:i] = rng.choice([b"<", b">", b"&", b'"', b"'", b"<x>"])
+            if rng.chance(0.15):
+                j = base.find(b" ")
+                base[j + 1:j + 1] = b"/<img src=x>" + b"A" * rng.choice([2100, 5000])
             out.append({"k": "e2e", "client": bytes(base).hex(), "connect_err": None, "limit": None})
         elif r < 0.95:
             err = "".join(rng.choice(TOK) for _ in range(rng.randint(1, 4)))
+            if rng.chance(0.2):
+                err = "<script>x</script>" + "e" * rng.choice([2100, 5000]) + err
             err = err.encode("utf8", "replace").decode("utf8")
             out.append({"k": "e2e", "client": b"GET http://example.com/ HTTP/1.1\r\nHost: example.com\r\n\r\n".hex(),
                         "connect_err": err, "limit": None})
